@@ -55,6 +55,7 @@ FailingOp(e) ==
   IF e.out = "ZeroDiv" THEN (IF ConcDivZero(e.w, Asgs(e)) THEN {} ELSE {"zerodiv-unjustified"})
   ELSE IF e.out # "ok" THEN (IF e.cerr /\ NonByteReverse(e.w) THEN {} ELSE {"outcome"})
   ELSE IF NonByteReverse(e.w) THEN {}       \* no SMT-LIB meaning to compare with
+  ELSE IF Width(e.w) # Width(e.r) THEN {"result-width"} \cup MetaBad(e)   \* the result has another sort than the written operation
   ELSE (IF SameMeaning(e) THEN {} ELSE {"meaning"})
        \cup (IF Z3Agrees(e) THEN {} ELSE {"z3-translation"})
        \cup MetaBad(e)
